@@ -799,7 +799,13 @@ func (w *runWorld) differential(sim *verifsim.Sim, res *verifsim.Result) {
 			// compare the tokens the request got to see; the limit does not change what the model is given
 			ref.numPredict = len(r.gen)
 		}
-		srv := w.newServer("ref#"+strconv.Itoa(r.id), 1, true)
+		// the reference runner batches differently (its own batch size, one sequence): what
+		// the model is given must not depend on how the inputs were cut into batches
+		refBatch := w.cfg.batch
+		if verifsim.Draw("refbatch", 2) == 0 {
+			refBatch = 1 + verifsim.Draw("refbatchsize", 16)
+		}
+		srv := w.newServer("ref#"+strconv.Itoa(r.id), 1, refBatch, true)
 		srv.start()
 		sim.OnStep = srv.onStep
 		finished := false
